@@ -158,6 +158,27 @@ def run_property(pid, tier, seed, only=None):
             json.dump(doc, f, indent=1, default=str)
         suffix = "" if confirmed else " no-failing-input-found"
         lines.append(f"VIOLATION property={pid} replay={path} obligation={r.name}{suffix}")
+    if undecided and not violations and not os.environ.get("VT_NO_NATIVE_FALLBACK"):
+        # the verifier could not decide some obligation on this tree (restructured code, unmodelled dependency, solver
+        # limit): the property-level native batteries (real package, concrete inputs; they pass on the tree the
+        # contracts were written against) may still find a concrete failing input.  A failing battery = a violation with
+        # that input; a passing battery leaves the run undecided (exit 2)
+        from . import thorough as TH
+
+        if fallback is None:
+            fallback = TH.property_level_native(pid)
+        hit = [x for x in fallback if x.get("confirmed")]
+        if hit:
+            r0 = undecided[0]
+            path = os.path.join(ROOT, "replays", pid, _safe(r0.name) + ".json")
+            doc = {"property": pid, "obligation": r0.name, "function": r0.target, "case": r0.case, "clause": r0.clause,
+                   "verifier_output": "undecided: " + r0.detail, "replay": {"tier": "native-property-battery", "confirmed": True, "failing_inputs": hit,
+                   "note": "the verifier left %d obligation(s) undecided on this tree; a property-level native battery fails on it (real package, concrete inputs)" % len(undecided)},
+                   "replay_tier": "native-property-battery", "confirmed_on_real_code": True, "rerun": f"./check {pid} --tier {tier}"}
+            with open(path, "w") as f:
+                json.dump(doc, f, indent=1, default=str)
+            lines.append(f"VIOLATION property={pid} replay={path} obligation={r0.name} (undecided by the verifier; native property battery fails)")
+            violations.append(r0)
     # keep the machine-readable line format exact: VIOLATION property=<id> replay=<path>[ ... no-failing-input-found]
     # obligations expected to hold on this tree = all generated obligations minus the open known findings
     n_obl = len(obls) - sum(1 for r in known_hit if r.kind not in ("canary", "bounded"))
